@@ -245,6 +245,7 @@ func keeperRuns(lg *sim.Log, seed int64, runs, steps int) (int, error) {
 		var rate, principal string
 		var open sim.Result
 		var calc func() sdk.Msg
+		var reprice func(r string) error // governance-style change of the position's rate (accrues at the old rate first)
 		app = f.app
 		switch kind {
 		case "vault":
@@ -256,8 +257,13 @@ func keeperRuns(lg *sim.Log, seed int64, runs, steps int) (int, error) {
 			for _, v := range e.App.VaultKeeper.GetVaults(e.Ctx) {
 				id = v.Id
 			}
-			vid := id
+			vid, xp := id, f.extPairs[i]
 			calc = func() sdk.Msg { return vaulttypes.NewMsgVaultInterestCalcRequest(f.user, f.app, vid) }
+			reprice = func(r string) error {
+				return e.App.AssetKeeper.WasmUpdatePairsVault(e.Ctx, &bindings.MsgUpdatePairsVault{AppID: f.app, ExtPairID: xp, StabilityFee: sdk.MustNewDecFromStr(r),
+					ClosingFee: sdk.ZeroDec(), LiquidationPenalty: sdk.NewDecWithPrec(15, 2), DrawDownFee: sdk.NewDecWithPrec(1, 2), IsVaultActive: true,
+					MinCr: sdk.NewDecWithPrec(15, 1), DebtCeiling: sdk.NewInt(1000000000000000000), DebtFloor: sdk.NewInt(1000000), MinUsdValueLeft: 1000000})
+			}
 		case "locker":
 			i := rng.Intn(len(f.lsrApp))
 			rate, app = f.lsr[i], f.lsrApp[i]
@@ -269,6 +275,11 @@ func keeperRuns(lg *sim.Log, seed int64, runs, steps int) (int, error) {
 			}
 			lid, lapp := id, app
 			calc = func() sdk.Msg { return lockertypes.NewMsgLockerRewardCalcRequest(f.user.String(), lapp, lid) }
+			reprice = func(r string) error {
+				return e.App.CollectorKeeper.WasmUpdateCollectorLookupTable(e.Ctx, &bindings.MsgUpdateCollectorLookupTable{AppID: lapp, AssetID: f.debt,
+					DebtThreshold: sdk.NewInt(5000000), SurplusThreshold: sdk.NewInt(10000000), LotSize: sdk.NewInt(2000000), DebtLotSize: sdk.NewInt(2000000),
+					BidFactor: sdk.MustNewDecFromStr("0.01"), LSR: sdk.MustNewDecFromStr(r)})
+			}
 		case "lend", "borrow":
 			lendAmt := []int64{100000000, 123456789, 700000000000}[rng.Intn(3)]
 			// liquidity of the borrowed asset + the user's own lend position
@@ -308,9 +319,37 @@ func keeperRuns(lg *sim.Log, seed int64, runs, steps int) (int, error) {
 				dt = int64(rng.Intn(100000))
 			}
 			e.Ctx = e.Ctx.WithBlockHeight(e.Ctx.BlockHeight() + 1).WithBlockTime(e.Ctx.BlockTime().Add(time.Duration(dt) * time.Second))
-			res := e.Deliver(calc())
+			var res sim.Result
+			via := "msg"
+			if reprice != nil && rng.Intn(6) == 0 {
+				// the rate of the product is changed: every position first accrues at the old rate up to now
+				via = "rate-update"
+				nr := []string{"0", "0.001", "0.02", "0.1", "0.5"}[rng.Intn(5)]
+				res = func() (r sim.Result) {
+					old := e.Ctx
+					defer func() {
+						e.Ctx = old
+						if x := recover(); x != nil {
+							r = sim.Result{OK: false, Panic: true, Err: fmt.Sprint(x)}
+						}
+					}()
+					c, write := e.Ctx.CacheContext()
+					e.Ctx = c
+					err := reprice(nr)
+					if err != nil {
+						return sim.Result{OK: false, Err: err.Error()}
+					}
+					write()
+					return sim.Result{OK: true}
+				}()
+				if res.OK {
+					rate = nr
+				}
+			} else {
+				res = e.Deliver(calc())
+			}
 			p = f.project(e, kind, app, id)
-			par = lg.Add(par, run, "Accrue", map[string]interface{}{"kind": kind, "rate": rate, "principal": principal, "dt": dt},
+			par = lg.Add(par, run, "Accrue", map[string]interface{}{"kind": kind, "via": via, "rate": rate, "principal": principal, "dt": dt},
 				map[string]interface{}{"ok": res.OK, "err": res.Err, "panic": res.Panic}, p)
 		}
 	}
